@@ -291,3 +291,21 @@ pub fn lir_dump_kinds<C: OptCtx>(
     let lowered = checked.lower_to_mir().lower_to_lir();
     Ok((lowered.verif_c12_dump(), lowered.verif_c12_kinds()))
 }
+
+/// C12 T8 (interner correspondence): the identity of an interned identifier.
+/// Two `Interned` compare equal iff the compiler treats them as the same name.
+#[derive(Clone, Copy, Debug, PartialEq, Eq, Hash)]
+pub struct Interned(crate::ast::Identifier);
+
+impl Interned {
+    /// the text the identifier stands for
+    pub fn text(&self) -> &'static str {
+        self.0.as_str()
+    }
+}
+
+/// Interns `text` exactly as the parser and the registration functions do
+/// (`Identifier::from(&str)`).
+pub fn intern(text: &str) -> Interned {
+    Interned(crate::ast::Identifier::from(text))
+}
